@@ -16,6 +16,6 @@ func TestFree(t *testing.T) {
 		ID: "C02", Name: "free", Rule: freerun.Rule,
 		Gen:     func(t *rapid.T) freerun.Case { return freerun.Gen(t, freerun.Profile{Inc: 1, Cycle: 1, Gauge: 5}) },
 		Run:     freerun.Run,
-		Retries: 5,
+		Retries: 30,
 	})
 }
